@@ -50,14 +50,29 @@ func (fr *Frame) moveLocalsToShared() {
 	}
 	localNames := fr.fn.Names[:fr.fn.Nstack]
 	sharedNames := fr.fn.Names[fr.fn.Nstack:]
+	// for a closure the shared storage may already be used by other threads
+	fr.shared.Lock()
 	for j, sname := range sharedNames {
 		for i, lname := range localNames {
 			if lname == sname {
-				fr.shared.values[j] = fr.locals[i]
+				fr.shared.store(j, fr.locals[i])
 				break
 			}
 		}
 	}
+	fr.shared.Unlock()
+}
+
+// store puts a value into a shared slot.
+// If the shared storage is already reachable from other threads
+// the value is made concurrent first, the same as SuObject.set does
+// for values put into a concurrent object.
+// The caller must hold the lock (if concurrent).
+func (sh *Shared) store(i int, val Value) {
+	if sh.concurrent && val != nil {
+		val.SetConcurrent()
+	}
+	sh.values[i] = val
 }
 
 // lookupName finds a variable by name in the frame.
@@ -162,7 +177,7 @@ func (fr *Frame) getSetSharedSlot(idx int, val Value,
 		panic("uninitialized variable: " + fr.fn.VarName(idx))
 	}
 	val = op(orig, val)
-	fr.shared.values[i] = val
+	fr.shared.store(i, val)
 	if retOrig {
 		return orig
 	}
@@ -174,5 +189,5 @@ func (fr *Frame) setSharedSlot(idx int, val Value) {
 	if fr.shared.Lock() {
 		defer fr.shared.Unlock()
 	}
-	fr.shared.values[idx-SharedSlotStart] = val
+	fr.shared.store(idx-SharedSlotStart, val)
 }
